@@ -165,6 +165,9 @@ func (m *Model) watchBatch(h uint32, owner string, txs []PTx, ref string) {
 		if tx.IsConv() {
 			m.watch(h, owner, a, tx.Conv, ref)
 		}
+		for _, o := range tx.Outs {
+			m.watch(h, owner, hexAddr(o.To), tx.Asset, ref)
+		}
 	}
 }
 
@@ -1187,12 +1190,16 @@ func (m *Model) applyTxBlock(h uint32, blk *Block, obs Observer) {
 		etime := EntryTime(h, en.Minute)
 		if err := ValidFAT103(en, TXChainID, etime, txs[0].From, m.rcdeOK(h)); err != nil {
 			m.Flags["tx-invalid"]++
+			// an entry that fails the authorization checks has no effect on any balance (S: C05)
+			m.watchBatch(h, "C05", txs, "")
 			continue
 		}
 		eh := HashOn(ChTX, en)
 		hash := hex.EncodeToString(eh[:])
 		if m.executed[hash] {
 			m.Flags["dup-executed"]++
+			// a repeat of an executed entry changes nothing (S: C06)
+			m.watchBatch(h, "C06", txs, hash)
 			continue
 		}
 		if _, seen := m.Hist[hash]; seen {
@@ -1232,6 +1239,8 @@ func (m *Model) applyTxBlock(h uint32, blk *Block, obs Observer) {
 		if code != 0 {
 			rec.Status = int64(code)
 			m.Flags["transfer-rejected"]++
+			// a rejected batch leaves every balance exactly as it was (S: C03)
+			m.watchBatch(h, "C03", txs, hash)
 			continue
 		}
 		m.executed[hash] = true
